@@ -472,8 +472,45 @@ def suite_settings(pid, tier, seed):
             failures.append(mk_failure("settings", "plain", pre_cases[2 * i + 1], f"p{i}pre", "precreate_observable",
                                        f"pre-created directory tree changes behaviour: without `{dd[0][:150]}` with `{dd[1][:150]}`"))
         distinct.add("stp:" + str(i))
+    # first open with pre-creation interrupted by an I/O error inside the 65,536-mkdir loop (real library
+    # only): the failed open must not leave state that later opens rely on - a later open succeeds and
+    # every put lands, whichever pre-creation flag that open passes
+    nint = 3 if tier == "quick" else 12
+    int_cases = []
+    for i in range(nint):
+        r3 = random.Random(seed * 104729 + i)
+        k = r3.choice([9, 40, 700, 5000, 30000, 65000])
+        conts = [("%02x" % (r3.randrange(256))) * r3.choice([1, 3, 9]) + ("%02x" % j) for j in range(14)]
+        later = "" if r3.random() < 0.5 else " pre=0"
+        lines = [f"case pi{i}", "cfg kt=bytes n=3 sync=1 pre=1", f"fault {k}", "open", f"open{later}"]
+        lines += [f"put {('%02x' % (97 + j))} {c}" for j, c in enumerate(conts)] + [f"get {('%02x' % (97 + j))}" for j in range(len(conts))]
+        lines += ["close", "open"] + [f"get {('%02x' % (97 + j))}" for j in range(len(conts))] + ["close", "end"]
+        int_cases.append("\n".join(lines) + "\n")
+    ir = run.by_case(cached(f"settings-int-{tier}-{seed}-{nint}", lambda: dict(real=run.run_sharded(int_cases, "plain", "real")))["real"])
+    for c in int_cases:
+        name = case_name(c)
+        res = {int(m.group(1)): m.group(3) for m in (oracle.R_RE.match(l) for l in ir.get(name, [])) if m}
+        ops = oracle.op_lines(c)
+        if not res or res.get(0, "").startswith("opened"):
+            distinct.add("sti:" + name); continue          # the fault did not hit the first open
+        for j, l in enumerate(ops[1:], start=1):
+            t = l.split(); r = res.get(j)
+            bad = None
+            if t[0] == "open" and not (r or "").startswith("opened"):
+                bad = f"open after an interrupted creating open failed: {r}"
+            elif t[0] == "put" and r != "ok":
+                bad = f"`{l}` after an interrupted creating open returned {r}"
+            elif t[0] == "get":
+                cont = bytes.fromhex(ops[2 + (ord(bytes.fromhex(t[1])) - 97)].split()[2])
+                if r != "bytes:" + oracle.show_content(cont):
+                    bad = f"`{l}` returned {r}"
+            elif t[0] == "close" and r != "ok":
+                bad = f"close returned {r}"
+            if bad:
+                failures.append(mk_failure("settings", "plain", c, name, "precreate_observable", bad)); break
+        distinct.add("sti:" + name)
     failures = [f for f in failures if f["tag"] in spec["tags"] or f["tag"] in ("nofail", "malformed")]
-    return dict(evaluations=len(cases) + len(pre_cases), distinct=distinct, samples=[dict(suite="settings", case=cases[0].splitlines())],
+    return dict(evaluations=len(cases) + len(pre_cases) + len(int_cases), distinct=distinct, samples=[dict(suite="settings", case=cases[0].splitlines())],
                 diffs=diffs[:5], failures=failures, traces=len(cases), stats=dict(cases=len(cases), precreate_pairs=npre, diffs=len(diffs)))
 
 
@@ -509,7 +546,8 @@ def suite_conc(pid, tier, seed):
     nprog = 120 if tier == "quick" else 3000
     nsched = 4 if tier == "quick" else 10
     rng = random.Random(seed * 1000003 + 61)
-    cases = gen.conc_corpus()
+    corpus = gen.conc_corpus() + gen.conc_fault_corpus()
+    cases = list(corpus)
     for i in range(nprog):
         prog = gen.conc_case(f"q{i}", rng)
         for j in range(nsched):
@@ -535,7 +573,7 @@ def suite_conc(pid, tier, seed):
     # model-free exploration of the same programs on the real library: schedules the (correct) model
     # would never choose, e.g. a thread entering a critical section the model considers locked
     rounds = 12 if tier == "quick" else 60
-    free_cases = gen.conc_corpus() * 3 + gen.conc_fault_corpus() * 2 + [c for c in cases[len(gen.conc_corpus())::nsched]]
+    free_cases = gen.conc_corpus() * 3 + gen.conc_fault_corpus() * 2 + [c for c in cases[len(corpus)::nsched]]
     free_cases = [c.replace("\n", f"_f{i}\n", 1) for i, c in enumerate(free_cases)]
     def go_free():
         d = run.scratch_dir()
@@ -568,7 +606,8 @@ def suite_conc(pid, tier, seed):
                     free_fail.append(mk_failure("conc", "conc-free", c + f"# model-free exploration, seed {seed * 131 + rd}; observed schedule:\n" + sched_txt + "\n", f"{name} (free round {rd})", tag, msg))
     diffs, failures, distinct = [], [], set()
     nsteps = 0
-    canon = lambda ls: [re.sub(r" (I|S)=\d+", r" \1=*", l) for l in ls[1:]]
+    # an injected obstacle makes a call return an error: which error type the library wraps it in is not modelled
+    canon = lambda ls: [re.sub(r"-> err:(?!panic|BlobDataMissing)\S+.*$", "-> err:fault", re.sub(r" (I|S)=\d+", r" \1=*", l)) for l in ls[1:]]
     for c in cases:
         name = c.split("\n", 1)[0][5:]
         rl, ml = R.get(name, []), M.get(name, [])
